@@ -76,6 +76,9 @@ pub struct AymPrecise {
 
     registers: [u8; AY_REGISTER_COUNT],
     dc_filter: bool,
+    /// Verification hook: DAC level index (0..31) of channels A, B, C for every chip tick
+    #[cfg(rustzx_verif)]
+    verif_levels: alloc::vec::Vec<[u8; 3]>,
 }
 
 #[rustfmt::skip]
@@ -183,6 +186,8 @@ impl AymPrecise {
             right: 0.0,
             registers: [0; AY_REGISTER_COUNT],
             dc_filter: false,
+            #[cfg(rustzx_verif)]
+            verif_levels: alloc::vec::Vec::new(),
         };
 
         this.step = clock_rate / (sample_rate as f64 * 8f64 * DECIMATE_FACTOR as f64);
@@ -364,6 +369,13 @@ impl AymPrecise {
                 self.channels[i].volume * 2 + 1
             };
             assert!(out < 32);
+            #[cfg(rustzx_verif)]
+            {
+                if i == 0 {
+                    self.verif_levels.push([0; 3]);
+                }
+                self.verif_levels.last_mut().unwrap()[i] = out as u8;
+            }
             self.left += self.dac_table[out] * self.channels[i].pan_left;
             self.right += self.dac_table[out] * self.channels[i].pan_right;
         }
@@ -473,6 +485,12 @@ fn apply_dc_filter_for_sample(dc: &mut DcFilter, index: usize, x: f64) -> f64 {
 }
 
 impl AymPrecise {
+    /// Verification hook: takes the per-tick DAC level indices recorded since the last call
+    #[cfg(rustzx_verif)]
+    pub fn verif_take_levels(&mut self) -> alloc::vec::Vec<[u8; 3]> {
+        core::mem::take(&mut self.verif_levels)
+    }
+
     /// Enabled dc filter for samples
     pub fn enable_dc_filter(&mut self) {
         self.dc_filter = true;
